@@ -1,3 +1,153 @@
-/-! Property C10 — theorems (statements live here, helper lemmas in Faithful/Lib) -/
+import Faithful.Lib.EpochLoad
+import Faithful.Lib.IndexMeta
+import Faithful.Properties.C01
+
+/-!
+# C10 — an epoch is served only from indexes built for that epoch and CAR
+
+* `EpochLoad.load : Config → FileSet → Except Err Loaded` is `NewEpochFromConfig` on the identities carried by the configured
+  index files.  It is *defined* as the interpretation of `Generated.loadChecks`, the ordered list of opens, kind
+  assertions and epoch / root comparisons that /verif/harness/extract/loadchecks.go reads out of epoch.go,
+  indexes/index-*.go and gsfa/gsfa-read.go on every run (anything it cannot classify becomes `.unknown`).
+* `generated_chain_ok` is the obligation that ties the theorem to the source: a decidable test of the extracted chain (every
+  opened role that can carry a kind / an epoch / a root has the corresponding check under guards that hold, in each of the
+  8 configuration modes × old-format combinations; the root comparisons chain up to one common value).  Removing a
+  comparison from /repo makes the `decide` fail.
+  **On the pinned tree it fails**: the gsfa `pubkey-to-offset-and-size.index` is opened (kind asserted) but its epoch and
+  root CID are never compared (no `.checkEpoch .gsfaPubkeyIndex` / `.checkRoot .gsfaPubkeyIndex` in the chain).  With
+  /verif/fixes/C10-1.patch applied the two steps are extracted and everything below checks.
+* `load_sound` is then the property, for every configuration and every set of files.
+* `meta_roundtrip`, `ident_roundtrip`, `plain_roundtrip`: what the writers record is read back unchanged.
+* `wrong_car_fails`: whatever CAR is behind the indexes, a CID-addressed fetch only returns the data of a section labelled
+  with the requested CID (re-export of C01.getNodeByCid_sound).
+-/
 namespace C10
+open B EpochLoad Generated
+
+/-- nothing in NewEpochFromConfig / OpenWithReader_* / NewGsfaReader touching identity data was left unclassified -/
+theorem generated_no_unknown : (Generated.loadChecks.all fun p => !isUnknown p.2) = true := by decide
+
+/-- the extracted chain passes the static test (this is where a removed comparison shows) -/
+theorem generated_chain_ok : chainOK Generated.loadChecks = true := by decide
+
+/-- **load_sound**: if `NewEpochFromConfig` succeeds then, for every index file it opened,
+    the kind recorded in a compact index is the one of its role, every recorded epoch is the configured epoch, every
+    recorded root CID is the root the epoch serves (so all recorded roots are equal), and in Filecoin mode that root is the
+    configured one.  All configurations (CAR / Filecoin mode, deprecated indexes, gsfa present or not), all files. -/
+theorem load_sound (cfg : Config) (fs : FileSet) (L : Loaded) (h : load cfg fs = .ok L) :
+    (∀ r, opened cfg.mode r = true → ∀ k, (fs r).kind? = some k → k = expectedKind r) ∧
+    (∀ r, opened cfg.mode r = true → ∀ e, (fs r).epoch? = some e → e = cfg.epoch) ∧
+    (∀ r r', opened cfg.mode r = true → opened cfg.mode r' = true →
+        ∀ x y, (fs r).root? = some x → (fs r').root? = some y → x = y) ∧
+    (∀ r, opened cfg.mode r = true → ∀ x, (fs r).root? = some x → L.root = some x) ∧
+    (cfg.mode.filecoin = true → L.root = some cfg.filecoinRoot) ∧
+    L.epoch = cfg.epoch := by
+  obtain ⟨hk, he, hr, hf, hep⟩ := loadWith_sound cfg fs Generated.loadChecks generated_chain_ok L h
+  refine ⟨hk, he, ?_, hr, hf, hep⟩
+  intro r r' ho ho' x y hx hy
+  have h1 := hr r ho x hx
+  have h2 := hr r' ho' y hy
+  rw [h1] at h2
+  exact Option.some.inj h2
+
+/-- contrapositive, the way the property is worded: a file of the wrong kind, of another epoch, or of another CAR than
+    some other opened file makes loading fail -/
+theorem mismatch_fails (cfg : Config) (fs : FileSet) (r : LRole) (ho : opened cfg.mode r = true)
+    (hbad : (∃ k, (fs r).kind? = some k ∧ k ≠ expectedKind r) ∨
+            (∃ e, (fs r).epoch? = some e ∧ e ≠ cfg.epoch) ∨
+            (∃ r' x y, opened cfg.mode r' = true ∧ (fs r).root? = some x ∧ (fs r').root? = some y ∧ x ≠ y) ∨
+            (∃ x, cfg.mode.filecoin = true ∧ (fs r).root? = some x ∧ x ≠ cfg.filecoinRoot)) :
+    ∀ L, load cfg fs ≠ .ok L := by
+  intro L h
+  obtain ⟨hk, he, hrr, hr, hf, _⟩ := load_sound cfg fs L h
+  rcases hbad with ⟨k, h1, h2⟩ | ⟨e, h1, h2⟩ | ⟨r', x, y, ho', h1, h2, h3⟩ | ⟨x, hm, h1, h2⟩
+  · exact h2 (hk r ho k h1)
+  · exact h2 (he r ho e h1)
+  · exact h3 (hrr r r' ho ho' x y h1 h2)
+  · have := hr r ho x h1
+    rw [hf hm] at this
+    exact h2 (Option.some.inj this).symm
+
+/-- **meta_roundtrip**: `UnmarshalBinary (MarshalBinary m) = m` whenever `MarshalBinary` succeeds
+    (≤ 255 pairs, keys/values ≤ 255 bytes; beyond that it returns an error) -/
+theorem meta_roundtrip (m : IndexMeta.KVs) (b : Bytes) (h : IndexMeta.encode m = some b) : IndexMeta.decode b = some m :=
+  IndexMeta.decode_encode m b h
+
+/-- kind, epoch (8-byte little endian), root CID bytes and network written by `setDefaultMetadata` are what
+    `getDefaultMetadata` returns from the sealed header -/
+theorem ident_roundtrip (i : IndexMeta.Ident) (he : i.epoch < 2 ^ 64) (hk : i.kind.length ≤ 255)
+    (hr : i.root.length ≤ 255) (hn : i.network.length ≤ 255) :
+    ∃ b, IndexMeta.encode (IndexMeta.defaultMeta i) = some b ∧ (IndexMeta.decode b).bind IndexMeta.readDefault = some i :=
+  IndexMeta.ident_roundtrip i he hk hr hn
+
+/-- epoch, root CID and network written into a gsfa manifest / sig-exists header are what `GetUint64`, `GetCid`,
+    `GetString` return -/
+theorem plain_roundtrip (epoch : Nat) (root network : Bytes) (he : epoch < 2 ^ 64) (hr : root.length ≤ 255)
+    (hn : network.length ≤ 255) :
+    ∃ b, IndexMeta.encode (IndexMeta.plainMeta epoch root network) = some b ∧
+      ∃ m, IndexMeta.decode b = some m ∧ IndexMeta.getUint64 m IndexMeta.keyEpoch = .val epoch ∧
+        IndexMeta.get m IndexMeta.keyRootCid = some root ∧ IndexMeta.get m IndexMeta.keyNetwork = some network ∧
+        IndexMeta.get m IndexMeta.keyKind = none :=
+  IndexMeta.plain_roundtrip epoch root network he hr hn
+
+/-- **wrong_car_fails**: whatever file sits behind the indexes (`car` is arbitrary — in particular a CAR the indexes were
+    not built from), `Epoch.GetNodeByCid c` returns data only out of a section of that file that is labelled with `c`;
+    otherwise it fails.  (Re-export of C01.getNodeByCid_sound.) -/
+theorem wrong_car_fails (hf : CI.HF) (ix : IndexAll.IndexSet) (car c d : Bytes)
+    (h : IndexAll.getNodeByCid hf ix car c = .ok d) :
+    ∃ off sz, off + sz ≤ car.length ∧ Car.parseSection (slice car off sz) = some (c, d) :=
+  C01.getNodeByCid_sound hf ix car c d h
+
+/-! ### non-vacuity -/
+
+def rootA : Bytes := [1, 113, 18, 32, 7]
+def rootB : Bytes := [1, 113, 18, 32, 9]
+def mainnet : Bytes := [109, 97, 105, 110, 110, 101, 116]
+
+/-- a complete, consistent epoch-5 file set -/
+def goodFiles (e : Nat) (root : Bytes) : FileSet
+  | .cidToOffsetAndSize => .compact (expectedKind .cidToOffsetAndSize) e root mainnet
+  | .slotToCid => .compact (expectedKind .slotToCid) e root mainnet
+  | .sigToCid => .compact (expectedKind .sigToCid) e root mainnet
+  | .sigExists => .bucketteer (some e) (some root) (some mainnet)
+  | .gsfaManifest => .manifest Generated.gsfaManifestVersion (some e) (some root) (some mainnet)
+  | .gsfaPubkeyIndex => .compact (expectedKind .gsfaPubkeyIndex) e root mainnet
+  | .slotToBlocktime => .blocktime e
+
+def carCfg : Config := ⟨⟨false, false, true⟩, 5, []⟩
+def fcCfg : Config := ⟨⟨true, false, true⟩, 5, rootA⟩
+
+def outcome (r : Except Err Loaded) : Option (Option Bytes) × Option Err :=
+  match r with
+  | .ok L => (some L.root, none)
+  | .error e => (none, some e)
+
+/-- the hypothesis of `load_sound` is satisfiable: consistent files load, in CAR mode and in Filecoin mode -/
+example : outcome (load carCfg (goodFiles 5 rootA)) = (some (some rootA), none) := by decide
+example : outcome (load fcCfg (goodFiles 5 rootA)) = (some (some rootA), none) := by decide
+/-- … and loading does reject: another epoch's pubkey index inside this epoch's gsfa directory -/
+example : outcome (load carCfg fun r => if r = .gsfaPubkeyIndex then goodFiles 6 rootA r else goodFiles 5 rootA r)
+    = (none, some (.reject .gsfaPubkeyIndex)) := by decide
+/-- another CAR's pubkey index -/
+example : outcome (load carCfg fun r => if r = .gsfaPubkeyIndex then goodFiles 5 rootB r else goodFiles 5 rootA r)
+    = (none, some (.reject .gsfaPubkeyIndex)) := by decide
+/-- a sig-to-cid file in the slot-to-cid role -/
+example : outcome (load carCfg fun r => if r = .slotToCid then goodFiles 5 rootA .sigToCid else goodFiles 5 rootA r)
+    = (none, some (.reject .slotToCid)) := by decide
+/-- Filecoin mode with another configured root -/
+example : outcome (load fcCfg (goodFiles 5 rootB)) = (none, some .filecoinRoot) := by decide
+/-- the chain is not trivial -/
+example : Generated.loadChecks.length > 25 := by decide
+/-- metadata: a concrete identity goes through bytes and back -/
+example : (IndexMeta.encode (IndexMeta.defaultMeta ⟨expectedKind .slotToCid, 5, rootA, mainnet⟩)).bind IndexMeta.decode
+    = some (IndexMeta.defaultMeta ⟨expectedKind .slotToCid, 5, rootA, mainnet⟩) := by decide
+/-- `MarshalBinary` does refuse what the one-byte lengths cannot hold -/
+example : IndexMeta.encode [(List.replicate 256 0, [])] = none := by
+  unfold IndexMeta.encode
+  rw [if_neg]
+  intro h
+  have := (h.2 _ (List.mem_singleton.mpr rfl)).1
+  rw [List.length_replicate] at this
+  exact absurd this (by decide)
+
 end C10
